@@ -75,6 +75,7 @@ func ruleRecKey(c *Ctx) {
 		}
 		// elements: loads of &slice[i] where slice is a record slice
 		elems := map[ssa.Value]bool{}
+		mixed := map[ssa.Value]bool{} // elements of Tx.pendingWrites: records of every data structure
 		instrs(f, func(in ssa.Instruction) {
 			ld, ok := in.(*ssa.UnOp)
 			if !ok || ld.Op != token.MUL {
@@ -88,6 +89,9 @@ func ruleRecKey(c *Ctx) {
 				return
 			}
 			elems[ld] = true
+			if isFieldLoad(ia.X, "Tx", "pendingWrites") {
+				mixed[ld] = true
+			}
 		})
 		// entries decoded from a segment: the first result of (*DataFile).ReadAt
 		calls(f, func(ci ssa.CallInstruction) {
@@ -136,9 +140,10 @@ func ruleRecKey(c *Ctx) {
 			}
 			return elemOf(base)
 		}
+		fieldWanted := "bucket"
 		isBucketOf := func(v ssa.Value, elem ssa.Value) bool {
 			fv, base := lastField(v)
-			if fv == nil || fv.Name() != "bucket" {
+			if fv == nil || fv.Name() != fieldWanted {
 				return false
 			}
 			return elemOf(base) == elem
@@ -202,6 +207,16 @@ func ruleRecKey(c *Ctx) {
 				c.bad(fnName(f), detail, c.P.ipos(in), "records of a collection that spans buckets are matched or de-duplicated by key without their bucket: the same key stored in two buckets is treated as one record, so an operation on one bucket changes (or loses) data of another")
 			}
 		}
+		reportDS := func(in ssa.Instruction, el ssa.Value) {
+			if !mixed[el] {
+				return
+			}
+			fieldWanted = "ds"
+			okb := comparesBucket(el)
+			fieldWanted = "bucket"
+			c.check(okb, fnName(f), fmt.Sprintf("key-based comparison #%d over the transaction's pending writes also uses the record's data structure", k), c.P.ipos(in), "",
+				"pending writes of every data structure share one list and key/value, set, list and sorted-set records reuse the same flag values: matching them by bucket and key alone lets a set or list operation stand in for (or hide) the key/value pair with the same bucket and key")
+		}
 		instrs(f, func(in ssa.Instruction) {
 			switch x := in.(type) {
 			case *ssa.Call:
@@ -209,6 +224,7 @@ func ruleRecKey(c *Ctx) {
 					for _, a := range x.Call.Args {
 						if el := isKeyOf(resolve1(a)); el != nil {
 							report(in, "comparison", comparesBucket(el))
+							reportDS(in, el)
 							return
 						}
 					}
@@ -219,6 +235,7 @@ func ruleRecKey(c *Ctx) {
 						if b, ok := a.Type().Underlying().(*types.Basic); ok && b.Kind() == types.String {
 							if el := isKeyOf(resolve1(stripConv(a))); el != nil {
 								report(in, "comparison", comparesBucket(el))
+								reportDS(in, el)
 								return
 							}
 						}
